@@ -65,6 +65,49 @@ def signature(case, idx, verdict, table):
     return "bad-op:" + kind
 
 
+def kmodel(ctx):
+    """A private copy of the model driver, taken under the lake lock right after it was built: other
+    checks relink (or break) the shared executable while this one is still running."""
+    mine = ctx.work / "kmodel"
+    if not mine.exists():
+        import shutil
+        with vlib.Lock("lake"):
+            if not vlib.KMODEL.exists():
+                vlib.run(["lake", "build", "kmodel"], cwd=vlib.LEAN, timeout=3600)
+            if not vlib.KMODEL.exists():
+                return None
+            shutil.copy2(vlib.KMODEL, mine)
+    return mine
+
+
+def run_model(ctx, trace_path, out_path):
+    import subprocess
+    km = kmodel(ctx)
+    if km is None:
+        ctx.log("the model driver (kmodel) cannot be built")
+        return False
+    with open(trace_path) as fi, open(out_path, "w") as fo:
+        r = subprocess.run([str(km), "http"], stdin=fi, stdout=fo, stderr=subprocess.PIPE, text=True)
+    if r.returncode != 0:
+        ctx.log("model driver failed:", r.stderr[-1000:])
+    return r.returncode == 0
+
+
+def exec_ops(ctx, case_id, ops, tag):
+    opsf = ctx.work / f"{tag}.ops"
+    trf = ctx.work / f"{tag}.trace"
+    vf = ctx.work / f"{tag}.verdict"
+    opsf.write_text(f"case {case_id}\n" + "\n".join(ops) + "\n")
+    r = vlib.run([vlib.hbin("http"), "--ops", str(opsf), "--out", str(trf)], timeout=3600)
+    if r.returncode != 0:
+        return {"id": case_id, "ops": [(o, "") for o in ops], "crash": r.stdout[-2000:]}
+    run_model(ctx, trf, vf)
+    cs = vlib.parse_cases(trf, vf)
+    if not cs:
+        return {"id": case_id, "ops": [(o, "") for o in ops], "crash": "trace/verdict length mismatch"}
+    return cs[0]
+
+
 def failing_lines(case):
     return [(i, v) for i, (t, v) in enumerate(case["ops"]) if v.startswith("FAIL") or v.startswith("bad-op")]
 
@@ -75,7 +118,7 @@ def minimise(ctx, case, idx, verdict, tag):
     cls = vlib.fail_class(verdict)
     keep = [o for o in ops[:-1] if o.split()[0] in CONFIG_WORDS or "segs=auth/login" in o]
     for n, cand in enumerate((keep + [ops[-1]], ops)):
-        c = vlib.exec_ops(ctx, "http", "http", case["id"], cand, f"{tag}-min{n}")
+        c = exec_ops(ctx, case["id"], cand, f"{tag}-min{n}")
         if c.get("crash"):
             continue
         for i, v in failing_lines(c):
@@ -90,6 +133,10 @@ def run_stream(ctx, only, corpus_prefix, max_reports=3):
     table = routes()
     found = False
     traces = []
+    if kmodel(ctx) is None:
+        ctx.failed_obligations.append("kmodel-build")
+        ctx.log("the model driver (kmodel) cannot be built; the correspondence stream is skipped")
+        return False
     cdir = vlib.VERIF / "corpus" / "http"
     if cdir.exists():
         for f in sorted(cdir.glob(f"{corpus_prefix}*.ops")):
@@ -114,7 +161,7 @@ def run_stream(ctx, only, corpus_prefix, max_reports=3):
     reported = {}
     for tr in traces:
         vf = Path(str(tr) + ".verdict")
-        if not vlib.run_model(ctx, "http", tr, vf):
+        if not run_model(ctx, tr, vf):
             vlib.report_violation(ctx, "model-driver-crash", {"stream": "http"}, found_input=False)
             continue
         cases = vlib.parse_cases(tr, vf)
@@ -156,7 +203,7 @@ def replay(ctx, data, prop_modules, tables):
     vlib.build_harness(ctx, ["http"])
     vlib.prove(ctx, prop_modules)
     table = routes()
-    c = vlib.exec_ops(ctx, "http", "http", data.get("case", "replay"), data["ops"], "replay")
+    c = exec_ops(ctx, data.get("case", "replay"), data["ops"], "replay")
     if c.get("crash"):
         print(c["crash"])
         print(f"VIOLATION property={ctx.pid} replay={ctx.work}/replay.ops")
